@@ -72,6 +72,13 @@ def make_overlay(spec_go):
         write_if_changed(cf, common.replace("PKGNAME", g["pkgname"]))
         repl[os.path.join(d, "zz_verif_common_test.go")] = cf
         for f in g["files"]:
+            if f.endswith(".tmpl"):
+                # a harness file shared by several packages: instantiated per package like common.go.tmpl
+                base = os.path.basename(f)[:-len(".tmpl")]
+                tf = os.path.join(BUILD, "common", g["dir"].replace("/", "_") or "root", "zz_verif_" + base)
+                write_if_changed(tf, open(os.path.join(VERIF, "harness", f)).read().replace("PKGNAME", g["pkgname"]))
+                repl[os.path.join(d, "zz_verif_" + base)] = tf
+                continue
             repl[os.path.join(d, "zz_verif_" + os.path.basename(f))] = os.path.join(VERIF, "harness", f)
     ov = os.path.join(BUILD, "overlay_%s.json" % hashlib.sha1(json.dumps(sorted(repl.items())).encode()).hexdigest()[:10])
     write_if_changed(ov, json.dumps({"Replace": repl}, indent=1))
